@@ -590,6 +590,45 @@ func TestLongChains(t *testing.T) {
 			}
 		}
 	}
+	// a long chain that is entered twice in one walk: the same callee used twice, a diamond onto the chain, a script in
+	// the middle of the chain used twice - all valid; the loader visits scripts in map order, so every set is loaded 8 times
+	for _, ln := range []int{8, 9, 10, 12, 17, 33} {
+		for shape := 0; shape < 5; shape++ {
+			if (ln+shape)%evid.NShards() != evid.Shard() {
+				continue
+			}
+			cfg := make(config, ln+1)
+			for i := 0; i < ln-1; i++ {
+				cfg[i] = v(i + 1)
+			}
+			cfg[ln-1] = v()
+			cfg[ln] = v() // an extra script outside the chain
+			switch shape {
+			case 0:
+				cfg[0] = v(1, 1)
+			case 1:
+				cfg[0] = v(1, ln)
+				cfg[ln] = v(1) // diamond: root -> c1, root -> d -> c1
+			case 2:
+				cfg[0] = v(1, ln)
+				cfg[ln] = v(3) // root -> chain, root -> d -> c3
+			case 3:
+				cfg[2] = v(3, 3)
+			default:
+				cfg[0] = v(ln, 1, ln, 1)
+				cfg[ln] = v(ln - 1)
+			}
+			id := make([]int, ln+1)
+			rev := make([]int, ln+1)
+			for i := range id {
+				id[i], rev[i] = i, ln-i
+			}
+			for rep := 0; rep < 8; rep++ {
+				runConfig(t, "long", cfg, 2, [][]int{id, rev}, rep%6)
+				n++
+			}
+		}
+	}
 	// wide: one script using many others (twice each), some of which fail
 	for _, w := range []int{6, 17, 33} {
 		cfg := make(config, w+1)
@@ -608,7 +647,7 @@ func TestLongChains(t *testing.T) {
 		runConfig(t, "long", cfg, 2, [][]int{id}, w+1)
 		n += 2
 	}
-	evid.Exhaustive("use chains of 5..40 scripts x 6 endings x 6 text variants x 3 insertion orders; wide fans", n)
+	evid.Exhaustive("use chains of 5..40 scripts x 6 endings x 6 text variants x 3 insertion orders; chains entered twice (5 shapes x 8 loads); wide fans", n)
 }
 
 // TestRelink: the exported linker is given a set in which some scripts come from an earlier load (kept in memory)
